@@ -15,9 +15,9 @@ theorem wrapS32_id (i : Int) (h1 : -(2147483648 : Int) ≤ i) (h2 : i < 21474836
 /-- for every index representable in i32 and every length below 2^31, the emitted check sequence accepts
     exactly the indices valid for the CURRENT length (negative ones counting from the end) and selects
     exactly the specified element; everything else panics -/
-theorem dyn_index_checked (i : Int) (len : Nat) (hl : (len : Int) < 2147483648)
-    (h1 : -(2147483648 : Int) ≤ i) (h2 : i < 2147483648) : implIndex i len = normIndex i len := by
-  unfold implIndex checked32 normIndex
+theorem dyn_index_checked_i32 (i : Int) (len : Nat) (hl : (len : Int) < 2147483648)
+    (h1 : -(2147483648 : Int) ≤ i) (h2 : i < 2147483648) : checked32 (wrapS 32 i) len = normIndex i len := by
+  unfold checked32 normIndex
   rw [wrapS32_id i h1 h2]
   by_cases hneg : i < 0
   · have hw : wrapS 32 ((len : Int) + i) = (len : Int) + i := wrapS32_id _ (by omega) (by omega)
@@ -39,6 +39,19 @@ theorem dyn_index_checked (i : Int) (len : Nat) (hl : (len : Int) < 2147483648)
       have hq : ¬ (-(len : Int) ≤ i ∧ i < 0) := by omega
       simp [this, hp, hq] <;> omega
 
+/-- FULL statement, over EVERY integer index value (any source type up to 64 bits): the compiled check is the
+    specified normalisation — in particular a value outside the i32 range always panics -/
+theorem dyn_index_checked (i : Int) (len : Nat) (hl : (len : Int) < 2147483648) : implIndex i len = normIndex i len := by
+  unfold implIndex
+  by_cases hw : i > 2147483647 ∨ i < -2147483648
+  · simp only [hw, if_true]
+    unfold normIndex
+    have h1 : ¬ (0 ≤ i ∧ i < len) := by omega
+    have h2 : ¬ (-(len : Int) ≤ i ∧ i < 0) := by omega
+    simp [h1, h2]
+  · simp only [hw, if_false]
+    exact dyn_index_checked_i32 i len hl (by omega) (by omega)
+
 /-- an index is never mis-rejected and never mis-accepted by the compile-time check of constant indices -/
 theorem static_bounds_exact (i : Int) (n : Nat) : staticIndex i n = normIndex i n := by
   unfold staticIndex normIndex
@@ -59,9 +72,8 @@ theorem static_bounds_exact (i : Int) (n : Nat) : staticIndex i n = normIndex i 
       have hq : ¬ (-(n : Int) ≤ i ∧ i < 0) := by omega
       simp [hneg, this, hp, hq] <;> omega
 
-/-- FULL statement over the source index type — FALSE on the current tree: a 64-bit index is truncated to 32
-    bits before the check, so 2^32 selects element 0 instead of panicking (known finding F13) -/
-theorem wide_index_witness : implIndex 4294967296 3 = some 0 ∧ normIndex 4294967296 3 = none := by decide
+/-- the behaviour before the repair (F13, fixed in /repo): truncation made 2^32 select element 0 -/
+theorem old_wide_index_witness : implIndexTruncating 4294967296 3 = some 0 ∧ normIndex 4294967296 3 = none ∧ implIndex 4294967296 3 = none := by decide
 
 /-- the valid results are in bounds: the element touched lies inside the sequence -/
 theorem index_in_bounds (i : Int) (len : Nat) (j : Nat) (h : normIndex i len = some j) : j < len := by
